@@ -273,21 +273,24 @@ Definition succs (d : decl) (r : rstate) (s : sym) : list sym :=
     match s with SC c => match get_alts (r_alts r) c with Some l => map SC l | None => [] end | SB _ => [] end
   else if mem_sym s (r_nonterm r) then flat_map explode (fields_of d s) else [].
 
-(* symbols reachable in >= 1 step, by iterating the successor relation |nodes| times *)
-Fixpoint reach_n (n : nat) (d : decl) (r : rstate) (frontier acc : list sym) : list sym :=
+(* symbols reachable in >= 1 step: breadth-first rounds; the flag says that the search ended because
+   no new symbol was found (and not because the round budget |nodes|+1 ran out) *)
+Definition dedupe (l : list sym) : list sym :=
+  fold_left (fun a x => if mem_sym x a then a else a ++ [x]) l [].
+
+Fixpoint reach_n (n : nat) (d : decl) (r : rstate) (frontier acc : list sym) : list sym * bool :=
   match n with
-  | O => acc
+  | O => (acc, false)
   | S k =>
       let next := flat_map (succs d r) frontier in
-      let fresh := filter (fun x => negb (mem_sym x acc)) next in
-      let fresh := fold_left (fun a x => if mem_sym x a then a else a ++ [x]) fresh [] in
-      match fresh with [] => acc | _ => reach_n k d r fresh (acc ++ fresh) end
+      let fresh := dedupe (filter (fun x => negb (mem_sym x acc)) next) in
+      match fresh with [] => (acc, true) | _ => reach_n k d r fresh (acc ++ fresh) end
   end.
 
-Definition reachable_from (d : decl) (r : rstate) (s : sym) : list sym :=
+Definition reachable_from (d : decl) (r : rstate) (s : sym) : list sym * bool :=
   reach_n (S (length (r_nodes r))) d r [s] [].
 
-Definition is_recursive (d : decl) (r : rstate) (s : sym) : bool := mem_sym s (reachable_from d r s).
+Definition is_recursive (d : decl) (r : rstate) (s : sym) : bool := mem_sym s (fst (reachable_from d r s)).
 
 (* ---------- weights ---------- *)
 Definition decl_weight (d : decl) (s : sym) : Q :=
@@ -342,7 +345,9 @@ Definition analyse (d : decl) (order : list sym -> list sym) : res grammar :=
   let* r := reg (reg_fuel d) d (TSym (d_start d)) r0 in
   let ord := order (r_nodes r) in
   let* m := dist_loop (4 + 2 * length (r_nodes r)) d r ord (dist_init r) in
-  Ok (mkG d r m (filter (is_recursive d r) (r_nodes r))).
+  if forallb (fun s => snd (reachable_from d r s)) (r_nodes r)
+  then Ok (mkG d r m (filter (is_recursive d r) (r_nodes r)))
+  else Err OutOfFuel.
 
 (* extract_grammar: analyse; if any considered or registered class carries a weight (after F32: not
    only the considered ones), normalise the weights, store them on the classes and analyse again
@@ -375,3 +380,34 @@ Definition dist_of (g : grammar) (s : sym) : res Z :=
 Definition gdist_ty (g : grammar) (t : ty) : res Z := dist_ty (g_decl g) (g_dist g) t.
 Definition min_tree_depth (g : grammar) : res Z := dist_of g (SC (d_start (g_decl g))).
 Definition weights_of (g : grammar) : wmap := get_weights (g_decl g) (g_reg g).
+
+(* ---------- Grammar.usable_grammar ---------- *)
+(* breadth-first collection of the symbols reachable from the start symbol: productions of an abstract
+   type, the (exploded) field types of a dataclass; builtins are leaves; an abstract class without
+   productions hits the final `assert False` *)
+Fixpoint usable_bfs (fuel : nat) (d : decl) (g : grammar) (queue considered : list sym) : res (list sym) :=
+  match fuel with
+  | O => Err OutOfFuel
+  | S f =>
+      match queue with
+      | [] => Ok considered
+      | c :: q =>
+          let* new := (match c with
+                       | SB _ => Ok []
+                       | SC k => match alts_of g k with
+                                 | Some l => Ok (map SC l)
+                                 | None => if is_abstract d c then Err AssertionError
+                                           else Ok (flat_map explode (fields_of d c))
+                                 end
+                       end) in
+          let '(q', cons') := fold_left (fun qc k => if mem_sym k (snd qc) then qc else (fst qc ++ [k], snd qc ++ [k]))
+                                        new (q, considered) in
+          usable_bfs f d g q' cons'
+      end
+  end.
+
+Definition usable (g : grammar) (order : list sym -> list sym) : res grammar :=
+  let d := g_decl g in
+  let st := SC (d_start d) in
+  let* cs := usable_bfs (4 + 4 * length (d_classes d) + length (r_nodes (g_reg g))) d g [st] [st] in
+  extract (mkDecl (d_classes d) (flat_map (fun s => match s with SC c => [c] | SB _ => [] end) cs) (d_start d) false) order.
